@@ -39,4 +39,32 @@ theorem tie_proxy_safe (caps : Caps) (pods : List (Pod × Bool)) (sched : List N
   have h := atomic_reserve_safe_limiter caps _ tie_proxy_one_section pods sched
   exact ⟨fun n hn => (h.1 n hn).2, fun k => (h.2.1 k).2, h.2.2.2, h.2.2.1⟩
 
+/-! ### arbitration facts (filter.go) -/
+
+/-- meaning of the extracted skip condition of getUnavailablePods on a model pod -/
+def evalSkipLeaf (q : PodA) (l : Bool × Nat) : Bool :=
+  let v := if l.2 = 1 then podActive q else if l.2 = 2 then q.ready else false
+  if l.1 then !v else v
+
+def evalSkip (conj : Bool) (ls : List (Bool × Nat)) (q : PodA) : Bool :=
+  if conj then ls.all (evalSkipLeaf q) else ls.any (evalSkipLeaf q)
+
+/-- getUnavailablePods: the `continue` condition in the source is `IsPodActive(pod) && IsPodReady(pod)` … -/
+theorem tie_unavailable_condition_shape :
+    C16.arbUnavailSkip = [(false, 1), (false, 2)] ∧ C16.arbUnavailSkipConj = true := by decide
+
+/-- … which is the model's `podAvail` for every pod: a replica is unavailable iff it is not active or not ready -/
+theorem tie_unavailable_condition (q : PodA) :
+    evalSkip C16.arbUnavailSkipConj C16.arbUnavailSkip q = podAvail q := by
+  simp [tie_unavailable_condition_shape.1, tie_unavailable_condition_shape.2, evalSkip, evalSkipLeaf, podAvail]
+
+/-- initFilters: the retryable chain consists of the four limit filters of `retryableChecks`, each dropped exactly
+    when its gate (for the workload filter: both gates) is skipped — the model's `gateSkipped` tests -/
+theorem tie_retryable_chain :
+    C16.arbRetryableChain = [(5, [5]), (3, [3]), (4, [4]), (12, [2, 1])] := by decide
+
+/-- both pod filters start with `HaveEvictAnnotation(pod) ||`: the exemption that `exemptAdm` / `round_inv` state -/
+theorem tie_annotation_bypass :
+    C16.arbAnnBypassRetryable = true ∧ C16.arbAnnBypassNonRetryable = true := by decide
+
 end KoordVerif.C16
